@@ -44,16 +44,25 @@ CLAIMS = {
         technique='Coq proof of the filter-chain logic over a hand-written Gallina model of filter.py (generators as values, '
                   'distance function abstract) against an independent conjunction-filter specification + differential check on '
                   'really decoded messages + high-precision numeric test of haversine',
-        text='C19_partial / C19_chain_is_filter / C19_chain_perm / C19_no_raise / C19_geo_pass_without_position / '
-             'C19_distance_strict / C19_grid_closed / C19_lazy_semantics are proved for all message lists, all chains and every '
+        text='C19_partial / C19_chain_is_filter / C19_chain_perm / C19_no_raise / C19_builtin_chain_total / C19_keep_sound / '
+             'C19_geo_pass_without_position / C19_distance_strict / C19_grid_closed / C19_lazy_semantics / '
+             'C19_unevaluable_attribute_not_passed / C19_none_short_circuit are proved for all message lists, all chains and every '
              'distance function (a Section variable, not an axiom): the chain yields exactly the order-preserving subsequence '
              'of messages satisfying every criterion, independent of filter order; the built-in filters never raise on any '
-             'decoded message shape (coordinates None included); dist < d is strict, the grid is closed, messages without '
-             'position pass. PARTIAL: that haversine (libm sin/cos/asin/sqrt in binary64) is the great-circle distance and never '
+             'decoded message shape (coordinates None included; reading an attribute is an effect in the model: a computed '
+             'attribute such as is_sotdma / is_itdma / communication_state_raw may raise TypeError or ValueError, as it does '
+             'on a type 9/18/26 report cut before the radio field, and such a message is then simply not passed by a '
+             'NoneFilter listing it); dist < d is strict, the grid is closed, messages without position pass. '
+             'C19_none_other_exception_escapes states the limit (a getter raising anything else still escapes; no decoded '
+             'message has one: hypothesis attr_reads_ok, evaluated by the harness on every decoded message); '
+             'C19_unrepaired_raises / C19_nonefilter_unrepaired_raises record the behaviour before the fix: commits. PARTIAL: that haversine (libm sin/cos/asin/sqrt in binary64) is the great-circle distance and never '
              'raises is tested on every run against a 60-digit reference (1e-6 km; 1e-3 km within 1 km of the antipode or for '
              'latitudes outside [-90, 90]), not proved -- no bit-exact libm model exists here. ' + TIE,
         note=BASE_NOTE + 'is_in_grid and the filter predicates are modelled by hand (Model/Filter.v) and tied by the '
-             'correspondence check at every grid edge and at distances exactly equal to the threshold; filter objects are '
+             'correspondence check at every grid edge and at distances exactly equal to the threshold; attribute names range '
+             'over fields and over the computed attributes found by reflection (not methods, not underscore names); the '
+             'hypotheses on a decoded message (coords_numeric, attr_reads_ok) are extracted and evaluated on every message the '
+             'harness decodes; filter objects are '
              'assumed to belong to one chain (FilterChain links them by mutation); user predicates of AttributeFilter are '
              'arbitrary functions in the model.',
         design='DESIGN.md section 7, C19'),
